@@ -202,24 +202,21 @@ def erf (x : Float) : Float :=
   else if x < 0.0 then -(if -x ≤ 3.0 then erfSeries (-x) else 1.0 - erfcCF (-x))
   else if x ≤ 3.0 then erfSeries x else 1.0 - erfcCF x
 
-/-- `log Γ(x)` for `x > 0`: shift to `x ≥ 16`, then Stirling's series -/
+/-- `log Γ(x)` for `x > 0`: shift to `x ≥ 16` (`Γ(x) = Γ(x+n) / (x (x+1) … (x+n-1))`, the product stays below
+    `16^16`), then Stirling's series -/
 def lgamma (x : Float) : Float := Id.run do
   if x.isNaN then return x
   if x ≤ 0.0 then return (1.0 / 0.0)
   let mut y := x
   let mut p := 1.0
-  let mut shift := 0.0
   for _ in [0:16] do
     if y < 16.0 then
       p := p * y
-      if p > 1e250 then
-        shift := shift + Float.log p
-        p := 1.0
       y := y + 1.0
   let z := 1.0 / (y * y)
   let ser := (1.0 / 12.0 - z * (1.0 / 360.0 - z * (1.0 / 1260.0 - z * (1.0 / 1680.0 - z * (1.0 / 1188.0
     - z * (691.0 / 360360.0 - z * (1.0 / 156.0))))))) / y
-  return (y - 0.5) * Float.log y - y + 0.9189385332046727 + ser - (Float.log p + shift)
+  return (y - 0.5) * Float.log y - y + 0.9189385332046727 + ser - Float.log p
 
 /-- `Γ(x)` for `x ≥ 0` (`Γ(0) = +inf` as in scipy) -/
 def gamma (x : Float) : Float := if x == 0.0 then 1.0 / 0.0 else Float.exp (lgamma x)
